@@ -58,8 +58,9 @@ def main(argv=None):
     if not names:
         names = sorted(n for n in os.listdir(SEEDED) if os.path.exists(os.path.join(SEEDED, n, "patch.diff")))
     results = []
+    seeds = tuple(x for x in os.environ.get("VERIF_SELFTEST_SEEDS", "0").split(",") if x)
     for n in names:
-        r = run_one(n)
+        r = run_one(n, seeds=seeds)
         results.append(r)
         print(f"{n}: property={r['property']} caught={r.get('caught')} " +
               " ".join(f"[{x['check']} seed={x['seed']} exit={x['exit']} {x['wall_s']}s]" for x in r.get("runs", [])) +
@@ -68,7 +69,7 @@ def main(argv=None):
             for l in x["lines"][:3]:
                 print("    " + l)
     # a partial run updates the entries it re-ran and keeps the others
-    path = os.path.join(SEEDED, "RESULTS.json")
+    path = os.path.join(SEEDED, "RESULTS.json" if seeds == ("0",) else "RESULTS_seeds_" + "_".join(seeds) + ".json")
     merged = {}
     try:
         with open(path) as f:
